@@ -23,7 +23,7 @@
   `Lace.C01.assemble_image_render`; on rejected programs the model must reject as well).  A
   disagreement replaces the `S` answer by `spec-render-mismatch <model(render L0 P)> ## <spec(P)>`.
   Programs the canonical layout cannot write (`canonOk`: a string body with a raw quote / line feed,
-  `br` without condition, 65,535 words or more) are skipped.
+  `br` without condition, a full image of 65,535 words followed by anything but `.blkw 0`) are skipped.
 
   Third computation (ties the HARNESS renderer to `Spec.render`): for every text of a program the
   specification accepts, a layout is read off the text (`Driver/Layout.lean`) and validated by
